@@ -31,4 +31,10 @@ CHECKS = {
         "assumptions": ["the system clock and the clock discipline are replaced by a scripted clock (Drift = rate x interval, or unknown) and a recorder", "NaN impact factors are not generated (outside 'admissible configurations')", "offsets of magnitude >= 2^62 are generated but exempt from the exact reference model (only the bound is asserted)"],
         "timeout_quick": 400, "timeout_thorough": 1800,
     },
+    "C17": {
+        "pkg": "c17",
+        "rule": "rapid-generated exchange histories with resets / epoch changes against a naive reference (lucky-packet) and metamorphic + replica oracles (Ntimed).",
+        "assumptions": ["round-trip delays within a lucky-packet history are pairwise distinct (the statement's precondition)", "Ntimed samples within a guard band of 1e-9 relative around a learned limit are not judged"],
+        "timeout_quick": 400, "timeout_thorough": 1800,
+    },
 }
